@@ -296,10 +296,14 @@ func negotiateClient(ctx context.Context, identity, password string, session *Se
 	defer w.Close()
 
 	var selected sasl.Mechanism
+	// The advertised mechanisms as returned by Parse. Another element in the
+	// SASL namespace in the features list resets the cached value to nil, so do
+	// not assume that it is there.
+	advertised, _ := data.([]string)
 	// Select a mechanism, preferring the client order.
 selectmechanism:
 	for _, m := range mechanisms {
-		for _, name := range data.([]string) {
+		for _, name := range advertised {
 			if name == m.Name {
 				selected = m
 				break selectmechanism
@@ -315,7 +319,7 @@ selectmechanism:
 		sasl.Credentials(func() ([]byte, []byte, []byte) {
 			return []byte(session.LocalAddr().Localpart()), []byte(password), []byte(identity)
 		}),
-		sasl.RemoteMechanisms(data.([]string)...),
+		sasl.RemoteMechanisms(advertised...),
 	}
 
 	if connState := session.ConnectionState(); connState.Version != 0 {
